@@ -193,10 +193,14 @@ pub fn run(ctx: &mut Ctx) {
             let s = gen::scalar(&mut rng, false);
             mon.check(ctx, &s, &a, &args, &mut rng);
         }
+        if i % 16 == 5 {
+            let (o1, o2) = gen::resplit_objects(&mut rng);
+            check_pair(ctx, &o1, &o2);
+        }
         // targeted: strings that are prefixes of one another followed by further elements
         if i % 4 == 0 {
             let s = gen::string(&mut rng);
-            let ext = format!("{}{}", s, *rng.pick(&["a", "\u{0}", "\u{1}", "\u{4}", "\u{7f}", "é", "\u{ff}"]));
+            let ext = format!("{}{}", s, *rng.pick(&["a", "\u{0}", "\u{1}", "\u{4}", "\u{7f}", "é", "\u{ff}", "\t", "\n", " ", "!", "(", "0"]));
             let tail = gen::scalar(&mut rng, true);
             check_pair(ctx, &Tree::Arr(vec![Tree::Str(s.clone()), tail.clone()]), &Tree::Arr(vec![Tree::Str(ext.clone()), tail.clone()]));
             check_pair(ctx, &Tree::Obj(vec![(s.clone(), tail.clone())]), &Tree::Obj(vec![(ext.clone(), tail.clone())]));
